@@ -19,6 +19,10 @@ EXPLANATION = (
     "returned string is translate(tx, ty) scale(sx, sy) in that order, dropping a part only under the guard that it is "
     "the identity. R11.5: Viewbox.transform passes element and viewBox quantities in the parameter order. Not decided: "
     "digits lost by the 12-decimal formatting at extreme scales; tokenisation of unusual preserveAspectRatio spacing."
+    " R11.7: the statements of SVG.parse that fill in the width and height handed to the svg element's render()"
+    ' are followed for all eight combinations (width given / missing, height given / missing, viewBox present /'
+    " absent): a given dimension reaches render unchanged, a missing one becomes the viewBox's dimension of the"
+    ' same axis, else 1000.'
 )
 TECHNIQUE = (
     "static analysis (no execution): the whole function partially evaluated for every preserveAspectRatio value (10 align x 3 meetOrSlice + defaults) and every identity-test answer; resulting transform strings compared with the SVG 2 8.2 reference as exact canonical forms"
